@@ -168,7 +168,7 @@ Qed.
 
 (* what the decoder computes for a signature value written in either wire form *)
 Lemma sigval_parse gv g np :
-  sigval_ok g = true -> (negb np || match g with SStruct (_ :: _ :: _) => true | _ => false end) = true ->
+  sigval_ok g np = true -> (negb np || match g with SStruct (_ :: _ :: _) => true | _ => false end) = true ->
   let t := if np then show_noparens g else show g in
   parse_sig gv t = Some g /\ negb (lbeq (show g) t) = np.
 Proof.
